@@ -732,6 +732,7 @@ func runC18(c *gen.Ctx) error {
 			}
 		}
 	}
+	c.Do("nilconv", struct{}{})
 	nErr := 10000
 	if th {
 		nErr = 100000
@@ -739,7 +740,9 @@ func runC18(c *gen.Ctx) error {
 	for i := 0; i < nErr; i++ {
 		c.Do("err", c18ErrIn{c18RandErr(r), gen.Pick(r, []string{"connect", "grpc", "cg", "gc"})})
 		if i%4 == 0 {
-			c.Do("anyerr", c18AnyErrIn{Kind: gen.Pick(r, []string{"nil", "plain", "connect", "wrapped", "connect", "wrapped"}), Text: c18RandText(r, 12), Err: c18RandErr(r)})
+			ae := c18AnyErrIn{Kind: gen.Pick(r, []string{"nil", "plain", "connect", "wrapped", "connect", "wrapped"}), Text: c18RandText(r, 12), Err: c18RandErr(r)}
+			c.Do("anyerr", ae)
+			c.Do("anyconn", ae)
 		}
 	}
 
@@ -750,6 +753,7 @@ func runC18(c *gen.Ctx) error {
 	c18StatusRTGen(c)
 	c18MDRTGen(c)
 	c18HdrRTGen(c)
+	c18GetRTGen(c)
 
 	// ---- percent-encoding: every byte, pairs, random strings
 	for b := 0; b < 256; b++ {
@@ -820,6 +824,8 @@ func runC18(c *gen.Ctx) error {
 			}
 		}
 	}
+	// ---- the malformed stream of the strict codecs (c18bad.go)
+	c18BadGen(c)
 	// ---- strict codecs over sequences of calls (c18seq.go)
 	return c18SeqGen(c)
 }
